@@ -138,6 +138,10 @@ func c11Provenance(r *Run) {
 				} else {
 					r.Bad("R1", f.Name(), con, w.Pos(c.Pos()), "the member looked up must be the one named in the path: the identifier node's Value (for calls: the function identifier's Value)")
 				}
+			case isReflectValueMethod(info, c, "FieldByNameFunc"), methodIs(calleeOf(info, c), "reflect", "Type", "FieldByNameFunc"):
+				// a member chosen by a predicate over the field names (case folding, a tag, a prefix) is some
+				// member the predicate accepts, not the one spelled in the path: Go navigation knows exact names only
+				r.Bad("R1", f.Name(), "FieldByNameFunc("+short(w.Fset, c.Args[0])+")", w.Pos(c.Pos()), "a path member must be looked up by its exact name (FieldByName / MethodByName with the node's Value); a lookup by predicate can hand back another member, where Go navigation fails")
 			}
 		}
 	}
